@@ -111,8 +111,12 @@ class Taint:
             return out
         if k == "MethodCall":
             clo = [a for a in e["args"] if a["k"] == "Closure"]
-            if e["method"] in MAPPERS and clo:
+            if e["method"] in MAPPERS and clo and self.probe is None:
                 # the closure's value replaces the element: only what the closure builds reaches the result
+                out = []
+            elif e["method"] in MAPPERS and clo:
+                # origin query: the adaptors in front of the map are part of how the value was obtained
+                self.raw(fn, e["recv"], env, d, stack)
                 out = []
             else:
                 out = self.raw(fn, e["recv"], env, d, stack)
